@@ -169,7 +169,7 @@ def chunk_encode(bodies, sizefmt=None, final=True):
     spans = []
     for i, b in enumerate(bodies):
         if not b:
-            raise ValueError("empty chunk only as terminator")
+            raise ValueError("empty chunk only as terminator (an empty *decoded* body must arrive compressed, i.e. non-empty)")
         case, lz = sizefmt[i] if sizefmt else ("l", 0)
         h = "%x" % len(b)
         if case == "u":
